@@ -209,6 +209,7 @@ func (e *Engine) verifyFunc(fc *FuncContract) (res *FuncResult) {
 	st.Mem = e.fresh("Mem0", SHeap)
 	st.alloc = e.fresh("alloc0", SInt)
 	e.alloc0 = st.alloc
+	e.mapV0 = st.ghost["MapV"]
 	e.assumeGlobal(Ge(st.alloc, I(1)), "allocation pointer starts above nil")
 	e.computeEscaping(body)
 	params := e.paramObjects(fc)
